@@ -25,7 +25,7 @@ SEARCH_DRIVER = 'Drivers/C02Search.lean'
 RULE = ('generated base configurations x null perturbations {sampling-only intervention / analyzer with 0-5 own dists of random families at any '
         'list position, ghost disease (beta=0 or independent, no deaths), zero-coverage or zero-efficacy vaccination, permutation of diseases}; '
         'distinct = distinct (base, perturbation); non-trivial = the perturbation adds at least one distribution or module')
-TRUSTED = ['sc.search naming of distributions by attribute path (validated on every run: real registries are compared with the model)']
+TRUSTED = ["sciris' classification of Python objects (IterObj.check_iter_type / iteritems: which objects are iterable, their keyed children) is used as is by the graph exporter; the traversal (order, memo, skips, traces, flattening) is modelled in Model/Search.lean and compared with sc.search on every real object graph"]
 ASSUMPTIONS = ['Owns / Ignores (which components a function writes / reads) are hypotheses of the frame theorems; the correspondence and the differential oracle test them on the perturbation families']
 
 FAMS = ['random', 'normal', 'expon', 'bernoulli', 'poisson', 'uniform', 'lognorm_ex', 'randint', 'weibull', 'gamma', 'histogram']
